@@ -148,6 +148,15 @@ def pairing(R, rep):
         b, sites = R.leg(r)
         tb = R.terms(b, 2)
         debs = _remaining_debits(b, tb)
+        rg = None
+        if not debs:
+            # the debit may sit in a helper of the producer (`look_ahead.match_against_buy(.., remaining, ..)`)
+            rg = R.region(b, arg_depth=2)
+            for it in rg.items:
+                if is_decimal_arith_assign(it["term"]["callee"]) == "SubAssign":
+                    tgt = rg.arg(it, 0)
+                    if isinstance(tgt, tuple) and tgt and tgt[0] == "param" and tgt[1] < b.argc and b.local_ty(tgt[1] + 1) == "&mut rust_decimal::decimal::Decimal":
+                        debs.append((it["root_bb"], rg.arg(it, 1), it["body"].loc(it["term"]["sp"])))
         for bb, term, site in sites:
             q = agg_fields(term)["quantity"]
             okr = len(debs) >= 1 and all(d[1] == q for d in debs)
@@ -186,6 +195,15 @@ def pairing(R, rep):
                 for i, t in b.calls():
                     if is_decimal_arith_assign(t["callee"]) == "AddAssign":
                         claims.append((i, t, tb.operand(t["args"][1]), []))
+                if not claims:
+                    # …or deeper in the producer's region: an accumulation into a map entry
+                    rg = rg or R.region(b, arg_depth=2)
+                    for it in rg.items:
+                        if it["body"].id != b.id and is_decimal_arith_assign(it["term"]["callee"]) == "AddAssign":
+                            tgt = rg.arg(it, 0)
+                            keys = [x[2][1] for x in subterms(tgt) if isinstance(x, tuple) and x and x[0] == "call" and parse_callee(x[1])[2] in ("entry", "get_mut") and len(x[2]) == 2]
+                            if keys:
+                                claims.append((it["root_bb"], dict(it["term"], sp=None), rg.arg(it, 1), keys))
                 okc = False
                 why = "no future claim is recorded for the matched acquisition"
                 st = sell_time_ratio(q)
